@@ -13,6 +13,9 @@ const N: usize = 8;
 /// chunk_mut / remaining_mut state laws for a fixed-size target
 fn check_mut_state<B: BufMut>(b: &mut B, expect_rem: usize) {
     assert!(b.remaining_mut() == expect_rem);
+    // B's own has_remaining_mut: method syntax on `b: &mut B` resolves to `impl BufMut for &mut B`, which does not forward
+    // has_remaining_mut and answers with the default `remaining_mut() > 0` (s65: an override on Limit went unseen)
+    assert!(B::has_remaining_mut(&*b) == (expect_rem > 0));
     assert!(b.has_remaining_mut() == (expect_rem > 0));
     let cl = b.chunk_mut().len();
     assert!(cl <= expect_rem);
